@@ -3,6 +3,7 @@ package e4
 
 import (
 	"fmt"
+	"runtime"
 	"sort"
 	"strings"
 
@@ -27,6 +28,10 @@ type Scenario struct {
 	RaceOnly bool
 	// SingleOutcome: the observation is deliberately coarse (one legal outcome); the >= 2 outcomes vacuity floor does not apply
 	SingleOutcome bool
+	// Guards[{thread, index}], when set, makes that operation wait until it holds (a client that reacts to something it
+	// received): the thread is blocked at a scheduling point until then, and sequential orders in which it does not hold
+	// at the operation's turn are infeasible.
+	Guards map[[2]int]func(sys any) bool
 	// Accept lists outcomes that the sequential reference does not produce but the property allows (rare).
 }
 
@@ -61,7 +66,11 @@ func (sc *Scenario) sequentialOutcomes() map[string][][][2]int {
 			sys := sc.New()
 			res := make([][]string, n)
 			for _, o := range order {
-				res[o[0]] = append(res[o[0]], sc.Threads[o[0]][o[1]].Run(sys))
+				op := sc.Threads[o[0]][o[1]]
+				if g := sc.Guards[o]; g != nil && !g(sys) {
+					return // this operation could not have run at that point: not a sequential behaviour
+				}
+				res[o[0]] = append(res[o[0]], op.Run(sys))
 			}
 			key := renderOutcome(res, sc.Observe(sys))
 			out[key] = append(out[key], append([][2]int{}, order...))
@@ -89,6 +98,15 @@ func (sc *Scenario) bodies() (b []func(), outcome func() (string, []callRec)) {
 		t := t
 		b = append(b, func() {
 			for i, op := range sc.Threads[t] {
+				if g := sc.Guards[[2]int{t, i}]; g != nil {
+					if e := sched.Current(); e != nil {
+						e.Point("await "+op.Name, func() bool { return g(sys) })
+					} else {
+						for !g(sys) {
+							runtime.Gosched()
+						}
+					}
+				}
 				inv := 0
 				if e := sched.Current(); e != nil {
 					inv = e.Step()
